@@ -228,6 +228,11 @@ func (c *Compressor) compressValue(v float64) (uint64, error) {
 
 	leadingZeros := leardingZeros(xor)
 	trailingZeros := trailingZeros(xor)
+	// The leading-zero count is stored in a 5-bit field: clamp it so that it fits.
+	// Treating some leading zeros as significant bits is harmless; overflowing the field is not.
+	if leadingZeros >= 32 {
+		leadingZeros = 31
+	}
 
 	if err := c.bw.writeBit(one); err != nil {
 		log.Errorf("Compressor.compressValue: failed to write one bit. compressor=%+v, bitWriter=%+v, err=%v", c, c.bw, err)
